@@ -163,6 +163,9 @@ func packResults(resT types.Type, vals []Val) *Val {
 func (f *Frame) callStatic(st *state, callee *ssa.Function, args []Val, binds []Val, ins ssa.Instruction, resT types.Type) *Val {
 	u := f.u
 	full := callee.String()
+	if f.ct != nil && len(f.ct.PreCalls) > 0 {
+		f.checkPreCalls(st, callee, args, ins)
+	}
 	if m, ok := libModels[full]; ok {
 		u.trusted[full] = true
 		return m(f, st, callee, args, ins, resT)
@@ -289,6 +292,9 @@ func (f *Frame) builtin(st *state, b *ssa.Builtin, c *ssa.CallCommon, ins ssa.In
 			return &s
 		}
 		xs := f.val(c.Args[1])
+		if f.ct != nil && len(f.ct.PreCalls) > 0 {
+			f.checkPreCallsNamed(st, "append", []Val{s, xs}, ins)
+		}
 		r := u.appendSlice(f, st, ins, c.Args[0].Type(), s, xs, c.Args[1].Type())
 		return &r
 	case "copy":
@@ -482,4 +488,46 @@ func (u *Unit) freshString(st *state, t types.Type, prefix string) Val {
 	u.sortOfSite(strSite, SBV(8))
 	u.putArr(st.mem, strSite, na)
 	return Val{T: t, S: []string{ite(eq(n, "0"), "0", p), n}}
+}
+
+
+// checkPreCalls evaluates the function's call-site assertions for this call.
+func (f *Frame) checkPreCalls(st *state, callee *ssa.Function, args []Val, ins ssa.Instruction) {
+	f.checkPreCallsNamed(st, callee.Name(), args, ins)
+}
+
+func (f *Frame) checkPreCallsNamed(st *state, name string, args []Val, ins ssa.Instruction) {
+	u := f.u
+	if f.callOrd == nil {
+		f.callOrd = map[string]int{}
+	}
+	f.callOrd[name]++
+	nth := f.callOrd[name]
+	for _, pc := range f.ct.PreCalls {
+		if pc.Callee != name || (pc.Nth != 0 && pc.Nth != nth) {
+			continue
+		}
+		blk := ins.Block()
+		idx := 0
+		for i, x := range blk.Instrs {
+			if x == ins {
+				idx = i
+			}
+		}
+		f.atBlock, f.atIdx = blk, idx
+		cur := &state{reach: st.reach, mem: st.mem}
+		env := &Env{u: u, f: f, st: cur, old: &state{reach: f.entryR, mem: f.entry}, pkg: f.pkgTypes(), bound: map[string]Val{},
+			look: func(n string) (Val, bool) { return f.lookupVar(n, cur, nil, nil) }}
+		for i, a := range args {
+			env.bound[fmt.Sprintf("arg%d", i)] = a
+		}
+		term, quant, err := f.evalClause(env, pc.Label, pc.Src, func() string { return env.evalBool(pc.Expr) })
+		f.atBlock = nil
+		if err != nil {
+			u.specErrors = append(u.specErrors, fmt.Sprintf("%s precall %v", f.key, err))
+			continue
+		}
+		o := u.oblige(f, st, "assert", fmt.Sprintf("%s#%d.%s", name, nth, pc.Label), ins.Pos(), term)
+		o.Quant = quant
+	}
 }
